@@ -17,8 +17,8 @@ theorem DFin.client_base : ∀ a ∈ clientBase, DFin.Kept a := by
   all_goals (try (simp only [isOp, atPc, notifySink, setReaderChan, readerChan, readerIdx, getS, getD_stopAllFilters, markFlt, Bool.and_eq_true, Bool.or_eq_true, decide_eq_true_eq, Bool.not_eq_true', ne_eq] at hg ⊢))
   all_goals (try (simp at hg; done))
   all_goals (repeat' split)
-  all_goals (intro hf he hm hF)
-  all_goals (first | (cases hm; done) | (obtain ⟨f1⟩ := h _ hf he hm hF))
+  all_goals (intro he hm hF)
+  all_goals (first | (cases hm; done) | (obtain ⟨f1⟩ := h _ he hm hF))
   all_goals constructor
   all_goals (try dsimp only)
   all_goals (repeat' split)
@@ -38,8 +38,8 @@ theorem DFin.client_mon (s0 : Nat) : ∀ a ∈ clMon s0, DFin.Kept a := by
   all_goals (try (simp only [isOp, atPc, notifySink, setReaderChan, readerChan, readerIdx, getS, getD_stopAllFilters, markFlt, Bool.and_eq_true, Bool.or_eq_true, decide_eq_true_eq, Bool.not_eq_true', ne_eq] at hg ⊢))
   all_goals (try (simp at hg; done))
   all_goals (repeat' split)
-  all_goals (intro hf he hm hF)
-  all_goals (first | (cases hm; done) | (obtain ⟨f1⟩ := h _ hf he hm hF))
+  all_goals (intro he hm hF)
+  all_goals (first | (cases hm; done) | (obtain ⟨f1⟩ := h _ he hm hF))
   all_goals constructor
   all_goals (try dsimp only)
   all_goals (repeat' split)
@@ -59,8 +59,8 @@ theorem DFin.client_cfg (s0 : Nat) : ∀ a ∈ clCfg s0, DFin.Kept a := by
   all_goals (try (simp only [isOp, atPc, notifySink, setReaderChan, readerChan, readerIdx, getS, getD_stopAllFilters, markFlt, Bool.and_eq_true, Bool.or_eq_true, decide_eq_true_eq, Bool.not_eq_true', ne_eq] at hg ⊢))
   all_goals (try (simp at hg; done))
   all_goals (repeat' split)
-  all_goals (intro hf he hm hF)
-  all_goals (first | (cases hm; done) | (obtain ⟨f1⟩ := h _ hf he hm hF))
+  all_goals (intro he hm hF)
+  all_goals (first | (cases hm; done) | (obtain ⟨f1⟩ := h _ he hm hF))
   all_goals constructor
   all_goals (try dsimp only)
   all_goals (repeat' split)
@@ -80,8 +80,8 @@ theorem DFin.client_err (s0 : Nat) : ∀ a ∈ clErr s0, DFin.Kept a := by
   all_goals (try (simp only [isOp, atPc, notifySink, setReaderChan, readerChan, readerIdx, getS, getD_stopAllFilters, markFlt, Bool.and_eq_true, Bool.or_eq_true, decide_eq_true_eq, Bool.not_eq_true', ne_eq] at hg ⊢))
   all_goals (try (simp at hg; done))
   all_goals (repeat' split)
-  all_goals (intro hf he hm hF)
-  all_goals (first | (cases hm; done) | (obtain ⟨f1⟩ := h _ hf he hm hF))
+  all_goals (intro he hm hF)
+  all_goals (first | (cases hm; done) | (obtain ⟨f1⟩ := h _ he hm hF))
   all_goals constructor
   all_goals (try dsimp only)
   all_goals (repeat' split)
@@ -101,8 +101,8 @@ theorem DFin.client_start (s0 : Nat) : ∀ a ∈ clStart s0, DFin.Kept a := by
   all_goals (try (simp only [isOp, atPc, notifySink, setReaderChan, readerChan, readerIdx, getS, getD_stopAllFilters, markFlt, Bool.and_eq_true, Bool.or_eq_true, decide_eq_true_eq, Bool.not_eq_true', ne_eq] at hg ⊢))
   all_goals (try (simp at hg; done))
   all_goals (repeat' split)
-  all_goals (intro hf he hm hF)
-  all_goals (first | (cases hm; done) | (obtain ⟨f1⟩ := h _ hf he hm hF))
+  all_goals (intro he hm hF)
+  all_goals (first | (cases hm; done) | (obtain ⟨f1⟩ := h _ he hm hF))
   all_goals constructor
   all_goals (try dsimp only)
   all_goals (repeat' split)
@@ -122,8 +122,8 @@ theorem DFin.client_stop (s0 : Nat) : ∀ a ∈ clStop s0, DFin.Kept a := by
   all_goals (try (simp only [isOp, atPc, notifySink, setReaderChan, readerChan, readerIdx, getS, getD_stopAllFilters, markFlt, Bool.and_eq_true, Bool.or_eq_true, decide_eq_true_eq, Bool.not_eq_true', ne_eq] at hg ⊢))
   all_goals (try (simp at hg; done))
   all_goals (repeat' split)
-  all_goals (intro hf he hm hF)
-  all_goals (first | (cases hm; done) | (obtain ⟨f1⟩ := h _ hf he hm hF))
+  all_goals (intro he hm hF)
+  all_goals (first | (cases hm; done) | (obtain ⟨f1⟩ := h _ he hm hF))
   all_goals constructor
   all_goals (try dsimp only)
   all_goals (repeat' split)
@@ -143,8 +143,8 @@ theorem DFin.client_acc (s0 : Nat) : ∀ a ∈ clAcc s0, DFin.Kept a := by
   all_goals (try (simp only [isOp, atPc, notifySink, setReaderChan, readerChan, readerIdx, getS, getD_stopAllFilters, markFlt, Bool.and_eq_true, Bool.or_eq_true, decide_eq_true_eq, Bool.not_eq_true', ne_eq] at hg ⊢))
   all_goals (try (simp at hg; done))
   all_goals (repeat' split)
-  all_goals (intro hf he hm hF)
-  all_goals (first | (cases hm; done) | (obtain ⟨f1⟩ := h _ hf he hm hF))
+  all_goals (intro he hm hF)
+  all_goals (first | (cases hm; done) | (obtain ⟨f1⟩ := h _ he hm hF))
   all_goals constructor
   all_goals (try dsimp only)
   all_goals (repeat' split)
@@ -164,8 +164,8 @@ theorem DFin.client_flush (s0 r0 : Nat) : ∀ a ∈ clientFlush s0 r0, DFin.Kept
   all_goals (try (simp only [isOp, atPc, notifySink, setReaderChan, readerChan, readerIdx, getS, getD_stopAllFilters, markFlt, Bool.and_eq_true, Bool.or_eq_true, decide_eq_true_eq, Bool.not_eq_true', ne_eq] at hg ⊢))
   all_goals (try (simp at hg; done))
   all_goals (repeat' split)
-  all_goals (intro hf he hm hF)
-  all_goals (first | (cases hm; done) | (obtain ⟨f1⟩ := h _ hf he hm hF))
+  all_goals (intro he hm hF)
+  all_goals (first | (cases hm; done) | (obtain ⟨f1⟩ := h _ he hm hF))
   all_goals constructor
   all_goals (try dsimp only)
   all_goals (repeat' split)
@@ -173,26 +173,26 @@ theorem DFin.client_flush (s0 r0 : Nat) : ∀ a ∈ clientFlush s0 r0, DFin.Kept
 
 theorem DFin.micro : ∀ rt, MReach rt → ∀ s, DFinP s (getS rt s) rt.client := by
   apply MReach.inv' (fun rt => ∀ s, DFinP s (getS rt s) rt.client)
-  · intro ring cfgs prog s _ _ _ _
+  · intro ring cfgs prog s _ _ _
     rw [getS_initRT]
     split
     · rename_i hlt; cases cfgs[s] <;> exact ⟨by simp [initStream]⟩
     · exact ⟨by simp⟩
   · intro s a ha rt hr hg h
     refine all_setS_cl DFinP rt s _ ?_ h
-    intro hf he hm hF
-    rw [(src_keeps_script s a ha _).1] at hf; rw [(src_keeps_script s a ha _).2] at he; rw [src_keeps_F s a ha] at hF
-    exact DFin.src s rt.client rt.state a ha _ hg (TInvAll.micro rt hr s) (DId.micro rt hr s hf he hm hF) (h s hf he hm hF)
+    intro he hm hF
+    rw [(src_keeps_script s a ha _).2] at he; rw [src_keeps_F s a ha] at hF
+    exact DFin.src s rt.client rt.state a ha _ hg (TInvAll.micro rt hr s) (DId.micro rt hr s he hm hF) (h s he hm hF)
   · intro s a ha rt _ hg h
     refine all_setS_cl DFinP rt s _ ?_ h
-    intro hf he hm hF
-    rw [(flt_keeps_script a ha _).1] at hf; rw [(flt_keeps_script a ha _).2] at he; rw [flt_keeps_F a ha] at hF
-    exact DFin.flt s rt.client a ha _ hg (h s hf he hm hF)
+    intro he hm hF
+    rw [(flt_keeps_script a ha _).2] at he; rw [flt_keeps_F a ha] at hF
+    exact DFin.flt s rt.client a ha _ hg (h s he hm hF)
   · intro s a ha rt _ hg h
     refine all_setS_cl DFinP rt s _ ?_ h
-    intro hf he hm hF
-    rw [(snk_keeps_script s a ha _).1] at hf; rw [(snk_keeps_script s a ha _).2] at he; rw [snk_keeps_F s a ha] at hF
-    exact DFin.snk s rt.client a ha _ hg (h s hf he hm hF)
+    intro he hm hF
+    rw [(snk_keeps_script s a ha _).2] at he; rw [snk_keeps_F s a ha] at hF
+    exact DFin.snk s rt.client a ha _ hg (h s he hm hF)
   · intro a ha rt hr hg h
     exact client_families DFin.Kept DFin.client_base DFin.client_mon DFin.client_cfg DFin.client_start DFin.client_err
       DFin.client_stop DFin.client_acc (fun s r _ => DFin.client_flush s r) a ha rt (TInvAll.micro rt hr) hg h
